@@ -135,6 +135,9 @@ def get_y_labels(hist, ykeys):
     # SparselyBin, Categorize, IrregularlyBin, CentrallyBin
     if hasattr(hist, "bins"):
         hist_bins = dict(hist.bins)
+        if not hist_bins:
+            # no bin has been filled yet: there are no sub-histograms to take labels from
+            return []
         h = list(hist_bins.values())[0]
     # Bin
     elif hasattr(hist, "values"):
